@@ -163,16 +163,15 @@ def rule_expiry(ctx, R):
     if b is None:
         return 0
     seen = set()
-    for d in b.defs().get(0, []):
-        if d[0] != 'assign' or d[1] not in b.live_blocks():
-            continue
-        e = ExprBuilder(b)._rvalue(d[3]['rv'], (), 0, (d[1], d[2]))
-        variant = None
-        for x in e.walk():
-            if x.kind == 'agg' and x.name.startswith('track::TrackStatus::'):
-                variant = x.name.rsplit('::', 1)[-1]
-        if variant is None:
-            continue
+    # every place where a TrackStatus value is built (directly in the result or in a local that is wrapped in Ok later)
+    sites = []
+    for i_ in sorted(b.live_blocks()):
+        for si_, s_ in enumerate(b.blocks[i_]['st']):
+            if s_['k'] == 'assign' and s_['rv']['k'] == 'agg' and s_['rv'].get('ak') == 'adt' and \
+                    norm(s_['rv'].get('adt', '')).endswith('track::TrackStatus'):
+                sites.append(('assign', i_, si_, s_))
+    for d in sites:
+        variant = d[3]['rv']['v']
         seen.add(variant)
         conds = path_conditions(b, d[1])
         cmps = [c.cmp() for c in conds if c.cmp()]
@@ -664,6 +663,54 @@ def rule_conservation(ctx, R):
     return n
 
 
+def selection_semantics(F, b, is_selected_fact):
+    """how `b` selects elements of a status list, whatever the form: a `filter` predicate, a `filter_map` body or an
+    explicit loop that pushes the selected ones. Returns (found, exact, detail): exact = an element is selected exactly
+    on the paths on which is_selected_fact(conds) holds."""
+    from lib import eval_bool_paths, eval_option_paths, loop_element_paths
+    found = False
+    exact = False
+    detail = ''
+    for c in b.find_calls('std::iter::Iterator::filter', 'std::iter::Iterator::filter_map'):
+        for cb in closure_args_of_call(F, b, c):
+            if cb.locals[0] == 'bool':
+                paths = [(conds, v is True, v) for conds, v in eval_bool_paths(cb)]
+                g = bool(paths) and all(v is not None for _, _, v in paths)
+            elif 'Option' in cb.locals[0]:
+                paths = [(conds, tag == 'Some', tag) for conds, tag in eval_option_paths(cb)]
+                g = bool(paths) and all(tag in ('Some', 'None') for _, _, tag in paths)
+            else:
+                continue
+            found = True
+            for conds, sel, _ in paths:
+                if is_selected_fact(conds) != sel:
+                    g = False
+            detail = str([([str(k) for k in conds], sel) for conds, sel, _ in paths])
+            exact = exact or g
+    if not found:
+        pushes = b.find_calls('std::vec::Vec::push')
+        for h, blks in b.loops().items():
+            ps = [c.bb for c in pushes if c.bb in blks]
+            if not ps:
+                continue
+            paths = loop_element_paths(b, h, ps)
+            if not paths:
+                continue
+            found = True
+            g = True
+            for conds, hit in paths:
+                if is_selected_fact(conds) != hit:
+                    g = False
+            detail = str([([str(k) for k in conds], hit) for conds, hit in paths])
+            exact = exact or g
+    return found, exact, detail
+
+
+def _is_ok_wasted(conds):
+    return any(k.kind == 'discr' and k.variants == {'Wasted'} for k in conds) and any(
+        k.kind == 'discr' and k.variants == {'Ok'} for k in conds)
+
+
 def rule_only_expired_migrate(ctx, R):
     n = 0
     for meth in ('wasted', 'get_main_store_wasted'):
@@ -675,21 +722,11 @@ def rule_only_expired_migrate(ctx, R):
         if not ft:
             continue
         ids = eb.arg(ft[0], 1)
-        okchain = ids.has_call('find_usable') and ids.has_call('filter')
-        good = False
-        detail = ''
-        for c in b.find_calls('std::iter::Iterator::filter'):
-            for cb in closure_args_of_call(ctx.F, b, c):
-                ctx.read(cb)
-                paths = eval_bool_paths(cb)
-                g = bool(paths)
-                for conds, v in paths:
-                    wasted = any(k.kind == 'discr' and k.variants == {'Wasted'} for k in conds) and any(
-                        k.kind == 'discr' and k.variants == {'Ok'} for k in conds)
-                    if wasted != (v is True):
-                        g = False
-                detail = str([([str(k) for k in conds], v) for conds, v in paths])
-                good = good or g
+        found, good, detail = selection_semantics(ctx.F, b, _is_ok_wasted)
+        # the ids fetched are the selected ones of find_usable(): either the collected chain, or the vector the loop
+        # pushes to
+        okchain = found and (ids.has_call('find_usable') or any(
+            eb.arg(x, 0).has_call('find_usable') for x in b.find_calls('std::iter::Iterator::next')))
         n += 1
         ctx.check(okchain and good, R, b, meth + ':only-Ok(Wasted)-ids-are-fetched', detail[:200],
                   '%s fetches ids selected by %s: tracks that are not expired (Ok(Wasted)) can be moved out of their '
